@@ -63,3 +63,35 @@ rules(0, 1, gap=1)
 rules(1, 1, gap=1)
 rules(0, 1, gap=2)
 rules(1, 1, gap=2)
+
+UNITS.append(dict(
+    name='C06.owner_by_prefix', props=['C06'], kind='B', route='plain', bus=True,
+    tus=[dict(file='bus/connection.c', include_as='VERIF_TU'), dict(file=LIST), dict(file=STR)], harness='harness/c06_byprefix.c',
+    defines=['VERIF_N=3', 'SPEC_STR_MAX=6'], unwind=7, timeout=600, expect_s=10, must_have=['post1'],
+    bounds={'owned_names': 3, 'strings': 'names and prefix drawn from "a.b", "a.b.c", "a.bc", "a.c", "a"'},
+    functions=[dict(name='bus_connection_is_queued_owner_by_prefix', file='bus/connection.c', status='bounded',
+                    contract='TRUE iff some owned name equals the prefix or continues it with a "." (man page: send_destination_prefix / own_prefix matching)'),
+               dict(name='dbus_connection_get_data', file='dbus/dbus-connection.c', status='stub', note='returns the BusConnectionData of the connection'),
+               dict(name='bus_service_get_name', file='bus/services.c', status='stub', note='returns the name of the service'),
+               dict(name='_dbus_string_starts_with_words_c_str, _dbus_string_init_const, _dbus_list_get_first_link', file=STR, status='inlined', note='real code')],
+    assumptions=['services_owned holds exactly the services the connection is primary or queued owner of (bus_connection_add_owned_service*, C04 units)']))
+
+
+def opt(q, tier='quick', expect_s=60):
+    nm, fn = WHAT[q]
+    UNITS.append(dict(
+        name='C06.optimize_%s_n3' % nm, props=['C06'], kind='B', route='plain', bus=True, tier=tier,
+        tus=[dict(file=POL, include_as='VERIF_TU'), dict(file=LIST), dict(file=STR)], harness='harness/c06_opt.c',
+        defines=['VERIF_Q=%d' % q, 'VERIF_N=3', 'SPEC_STR_MAX=6'], unwind=7, timeout=1500, expect_s=expect_s, must_have=['post1', 'post2'],
+        bounds={'rules': 3, 'strings': 'as C06.*_n3', 'note': 'mixed send/receive/own lists, every attribute symbolic; decision compared through the real %s before and after' % fn},
+        functions=[dict(name='bus_client_policy_optimize + remove_rules_by_type_up_to', file=POL, status='bounded',
+                        contract='decision of %s unchanged for every message facts record; remaining rules are a subsequence; dropped rules released once' % fn),
+                   dict(name=fn, file=POL, status='inlined', note='real code on both sides; its semantics is the C06.%s_n3 unit' % nm),
+                   dict(name='_dbus_list_remove_link/_dbus_list_unlink', file=LIST, status='inlined', note='real code'),
+                   dict(name='_dbus_mem_pool_dealloc, _dbus_lock/_dbus_unlock, dbus_free', file='dbus/dbus-mempool.c, dbus-memory.c', status='stub', note='record the release; pool semantics')] + RULE_STUBS,
+        assumptions=RULE_ASSUME))
+
+
+opt(2, expect_s=30)
+opt(0, expect_s=200)
+opt(1, expect_s=200)
